@@ -2,7 +2,7 @@
    "bit k of a connection reaches bit k of the port it is connected to".
    Nodes are signal bits, instance-port bits and no-connect bits, located by hierarchical path.
    `step` is the one-step map: a port bit goes to the bit of the expression connected to it
-   (signal bit, referred port bit, or private no-connect bit; array element e of an n-array takes
+   (signal bit or referred port bit; a port on a no-connect - shared or not, named or not - is a fixed point; array element e of an n-array takes
    bit e*w+k of an n*w-wide connection or bit k of a w-wide one); a port-signal bit of a non-top
    module goes up to the port bit of the instance it was reached through; everything else is a fixed
    point.  Two nodes are on one net iff their orbits under `step` meet (FunGraph.conn_meet: that is
@@ -70,7 +70,7 @@ Definition step (d : design) (n : node) : result node :=
           match lf with
           | LSig s => Ok (NSig p s j)
           | LRef i' p' => Ok (NPort p i' 0 p' j)
-          | LNc site => Ok (NNc p site j)
+          | LNc _ => Ok n      (* a no-connect: the port bit ends on a net of its own *)
           end
       end
   | NSig p s k =>
